@@ -125,6 +125,7 @@ type Import struct {
 type Rpc struct {
 	Name       string   `json:"name"`
 	IfFeatures []string `json:"if_features,omitempty"`
+	Status     string   `json:"status,omitempty"`
 	Input      []*Node  `json:"input,omitempty"`
 	Output     []*Node  `json:"output,omitempty"`
 }
@@ -132,6 +133,7 @@ type Rpc struct {
 type Notif struct {
 	Name       string   `json:"name"`
 	IfFeatures []string `json:"if_features,omitempty"`
+	Status     string   `json:"status,omitempty"`
 	Kids       []*Node  `json:"kids,omitempty"`
 }
 
@@ -504,6 +506,9 @@ func (m *Mod) Text() string {
 		for _, f := range r.IfFeatures {
 			x.ln(2, "if-feature %s;", f)
 		}
+		if r.Status != "" {
+			x.ln(2, "status %s;", r.Status)
+		}
 		if len(r.Input) > 0 {
 			x.ln(2, "input {")
 			for _, k := range r.Input {
@@ -524,6 +529,9 @@ func (m *Mod) Text() string {
 		x.ln(1, "notification %s {", n.Name)
 		for _, f := range n.IfFeatures {
 			x.ln(2, "if-feature %s;", f)
+		}
+		if n.Status != "" {
+			x.ln(2, "status %s;", n.Status)
 		}
 		for _, k := range n.Kids {
 			x.node(2, k)
